@@ -71,14 +71,21 @@ package req
 // limit and the trailer section is read only after it succeeded.
 //@ ghost var crPeeked bool
 //@ ghost var crBody int
+//@ ghost var crChunked bool
+//@ ghost var crTrailer bool
 //@ func ContinueReadBody(req, r, maxBodySize, preParseMultipartForm) err
 //@   props C01, C03
 //@   abstract
 //@   noinline
 //@   panics
-//@   modifies crPeeked, crBody
+//@   modifies crPeeked, crBody, crChunked, crTrailer
 //@   ghostset-at-entry crPeeked = false
 //@   ghostset-at-entry crBody = 0
+//@   ghostset-at-entry crChunked = false
+//@   ghostset-at-entry crTrailer = false
+//@   ghostset after ContentLength!#1: crChunked = (result == -1)
+//@   ghostset after ReadTrailer: crTrailer = true
+//@   top-ensures err == nil && crBody == 1 && crChunked ==> crTrailer
 //@   assert before Peek: arg1 == contentLength && contentLength > 0 && (maxBodySize <= 0 || contentLength <= maxBodySize)
 //@   ghostset after Peek: crPeeked = (result1 == nil)
 //@   assert before Skip: crPeeked && arg1 == contentLength
